@@ -68,7 +68,9 @@ ASSUMPTIONS = [
 SHARDS = {"quick": 16, "thorough": 16}
 MIN_NONTRIVIAL = 2
 
-ROOT = rt.scratch_root("verif-c24-")      # shared by the forked shards
+# VERIF_C24_ROOT: development aid (re-use a built infrastructure); never set
+# by the registered commands
+ROOT = os.environ.get("VERIF_C24_ROOT") or rt.scratch_root("verif-c24-")
 BATCH = 6
 
 
